@@ -16,10 +16,10 @@ using refq::cplx;
 using refq::SV;
 using sim::Json;
 
-enum Kind { DECL = 0, DECLARR, NEWOBJ1, NEWOBJ2, GATE, CX, MEAS_STMT, MEAS_EXPR, MEAS_ARR, RESET, DROP, IFGATE, CYCLE, ALIAS, FACTORY, KIND_COUNT };
-inline bool isDecl(int k) { return k <= NEWOBJ2 || k == ALIAS || k == FACTORY; }
+enum Kind { DECL = 0, DECLARR, NEWOBJ1, NEWOBJ2, GATE, CX, MEAS_STMT, MEAS_EXPR, MEAS_ARR, RESET, DROP, IFGATE, CYCLE, ALIAS, FACTORY, PORT, REBIND, KIND_COUNT };
+inline bool isDecl(int k) { return k <= NEWOBJ2 || k == ALIAS || k == FACTORY || k == PORT; }
 inline const char* kindName(int k) {
-    static const char* n[] = {"decl", "declarr", "newobj1", "newobj2", "gate", "cx", "measure_stmt", "measure_expr", "measure_array", "reset", "drop", "if_gate", "garbage_cycle_owning_qubits", "alias", "qubit_returned_by_function"};
+    static const char* n[] = {"decl", "declarr", "newobj1", "newobj2", "gate", "cx", "measure_stmt", "measure_expr", "measure_array", "reset", "drop", "if_gate", "garbage_cycle_owning_qubits", "alias", "qubit_returned_by_function", "port_object_bound_to_local_qubit", "port_field_rebound"};
     return k >= 0 && k < KIND_COUNT ? n[k] : "?";
 }
 inline const char* gateName(int g) {
@@ -28,7 +28,8 @@ inline const char* gateName(int g) {
 }
 
 // handle kinds: 0 variable q<decl>; 1 array element r<decl>[elem]; 2 object field o<decl>.q; 3 object array field p<decl>.qs[elem];
-// 4 alias variable a<decl> (a copy of another handle, may outlive the object it was copied from); 5 static field SQ.s
+// 4 alias variable a<decl> (a copy of another handle, may outlive the object it was copied from); 5 static field SQ.s;
+// 6 field t<decl>.q of a Port object, which is re-pointed at local qubits by assignment (never owns what it names)
 struct Handle {
     int k = 0, decl = 0, elem = 0;
     bool viaBit = false;   // array element addressed by a bit-typed subscript (a call returning 0b / 1b)
@@ -72,7 +73,7 @@ struct Plan {
 // ---- declaration table (shared by generator, renderer and interpreter) ---------------------------
 struct DeclInfo {
     bool dtorGate = false;  // object of class Q1X: its destructor applies h to its qubit
-    int kind = 0;   // 0 var, 1 array, 2 obj1, 3 obj2
+    int kind = 0;   // 0 var, 1 array, 2 obj1, 3 obj2, 4 alias, 5 port
     int size = 1;
     bool alive = true;
     bool tracked = false;
@@ -85,6 +86,7 @@ inline std::string handleExpr(const Handle& h) {
         case 2: return "o" + std::to_string(h.decl) + ".q";
         case 4: return "a" + std::to_string(h.decl);
         case 5: return "SQ.s";
+        case 6: return "t" + std::to_string(h.decl) + ".q";
         default: return "p" + std::to_string(h.decl) + ".qs[" + std::to_string(h.elem) + "]";
     }
 }
@@ -132,6 +134,7 @@ inline std::string preamble(bool trackedFields, bool staticQubit = false) {
     s += "function bitZero() -> bit { return 0b; }\nfunction bitOne() -> bit { return 1b; }\n";
     s += "function prepH() -> qubit { qubit t; h(t); return t; }\nfunction prepN() -> qubit { qubit t; return t; }\n";
     if (staticQubit) s += "static class SQ { public static qubit s; }\n";
+    s += "class Port { public qubit q; public constructor() -> Port { } public function attach(qubit w) -> void { this.q = w; } }\n";
     s += "class QB { public qubit q; public constructor() -> QB = default; }\n";
     s += "class QS extends QB { public QS next; public constructor() -> QS { super(); this.next = null; return this; } }\n";
     s += "function mkCycle() -> void { QS ca = new QS(); QS cb = new QS(); ca.next = cb; cb.next = ca; }\n";
@@ -227,6 +230,12 @@ inline Rendered render(const Plan& p, bool trackedFields = false) {
             case CYCLE: add("mkCycle();", oi, true); break;
             case FACTORY: add("qubit q" + std::to_string(declCounter++) + (o.gate == 0 ? " = prepH();" : " = prepN();"), oi, true); break;
             case ALIAS: add("qubit a" + std::to_string(declCounter++) + " = " + handleExpr(o.h2) + ";", oi, true); break;
+            case PORT:
+                add("Port t" + std::to_string(declCounter) + " = new Port();", oi, true);
+                add("t" + std::to_string(declCounter) + (o.path % 2 ? ".attach(" + handleExpr(o.h2) + ");" : ".q = " + handleExpr(o.h2) + ";"), oi, false);
+                ++declCounter;
+                break;
+            case REBIND: add("t" + std::to_string(o.h.decl) + (o.path % 2 ? ".attach(" + handleExpr(o.h2) + ");" : ".q = " + handleExpr(o.h2) + ";"), oi, true); break;
             case DROP: {
                 std::string v = (o.h.k == 2 ? "o" : "p") + std::to_string(o.h.decl);
                 if (o.viaDestroy) add("destroy " + v + ";", oi, true);
@@ -295,6 +304,7 @@ struct GenOptions {
     double echoMeasureProb = 0.1;      // measure nested directly in an echo argument
     double sameQubitCxProb = 0.0;      // cx whose two operands are the same qubit, passed through two function parameters
     bool staticQubit = false;
+    double portProb = 0.0;             // an object whose qubit field is re-pointed at local qubits by assignment
 };
 
 // Generator-side bookkeeping mirrors the interpreter's notion of which qubits are measured, so that
@@ -308,6 +318,7 @@ inline Plan generate(sim::Rng& g, const GenOptions& go) {
     int freeSlots = 0;
     int bitvars = 0;
     std::vector<int> aliases;    // declaration ids of alias variables
+    std::vector<int> ports, portTarget;   // declaration ids of Port objects and the local each is bound to
     auto addHandles = [&](int declId) {
         const DeclInfo& d = decls[(size_t)declId];
         if (d.kind == 0) live.push_back({{0, declId, 0}, false});
@@ -351,6 +362,48 @@ inline Plan generate(sim::Rng& g, const GenOptions& go) {
                 decls.push_back(d);
                 takeQubits(1);
                 aliases.push_back((int)decls.size() - 1);
+                p.ops.push_back(o);
+                continue;
+            }
+        }
+        if (go.portProb > 0 && g.chance(ports.empty() ? go.portProb : 0.25)) {
+            std::vector<int> vars;   // live scalar locals
+            for (auto& r : live) if (r.h.k == 0) vars.push_back(r.h.decl);
+            if (!ports.empty() && vars.size() >= 2 && g.chance(0.8)) {
+                size_t pi = g.below(ports.size());
+                int target = vars[g.below(vars.size())];
+                if (target != portTarget[pi]) {
+                    o.kind = REBIND;
+                    o.h = Handle{6, ports[pi], 0};
+                    o.h2 = Handle{0, target, 0};
+                    portTarget[pi] = target;
+                    p.ops.push_back(o);
+                    continue;
+                }
+            } else if (!vars.empty() && ports.size() < 2 && allocated + 1 <= go.maxQubits + freeSlots) {
+                o.kind = PORT;
+                int target = vars[g.below(vars.size())];
+                o.h2 = Handle{0, target, 0};
+                DeclInfo d;
+                d.kind = 5;
+                decls.push_back(d);
+                takeQubits(1);
+                ports.push_back((int)decls.size() - 1);
+                portTarget.push_back(target);
+                p.ops.push_back(o);
+                continue;
+            }
+        }
+        if (!ports.empty() && g.chance(0.25)) {
+            size_t pi = g.below(ports.size());
+            bool targetMeasured = false;
+            for (auto& r : live) if (r.h.k == 0 && r.h.decl == portTarget[pi]) targetMeasured = r.measured;
+            if (!targetMeasured) {
+                o.kind = GATE;
+                o.h = Handle{6, ports[pi], 0};
+                o.gate = g.chance(0.5) ? 1 : (int)g.below(7);
+                o.angle = (int)g.below(20);
+                o.path = (int)g.below(2);
                 p.ops.push_back(o);
                 continue;
             }
@@ -489,7 +542,7 @@ inline Plan generate(sim::Rng& g, const GenOptions& go) {
         }
     }
     for (auto& o : p.ops) {
-        if (o.kind >= GATE && o.kind != DROP && o.kind != CYCLE && o.kind != ALIAS && o.kind != FACTORY) {
+        if (o.kind >= GATE && o.kind != DROP && o.kind != CYCLE && o.kind != ALIAS && o.kind != FACTORY && o.kind != PORT && o.kind != REBIND) {
             if (o.h.k == 1 && o.kind != MEAS_ARR && g.chance(0.2)) o.h.viaBit = true;
             if (o.kind == CX && o.h2.k == 1 && g.chance(0.2)) o.h2.viaBit = true;
         }
@@ -724,6 +777,17 @@ struct Interp {
                 aliasTarget[(int)decls.size() - 1] = o.h2.decl;
                 break;
             }
+            case PORT: {
+                // 'Port t = new Port();' allocates the object's own qubit; binding the field to a local leaves that
+                // qubit allocated, |0>, and named by nothing. The field then denotes the local's qubit.
+                leaked.push_back(allocIndex());
+                DeclInfo d;
+                d.kind = 5;
+                decls.push_back(d);
+                declIdx.push_back({resolve(o.h2)});
+                break;
+            }
+            case REBIND: declIdx[(size_t)o.h.decl] = {resolve(o.h2)}; break;
             case GATE:
             case IFGATE: {
                 if (o.kind == IFGATE) {
